@@ -192,9 +192,13 @@ fn customize(kv: &[(String, X)], host: &mut Host, _shared: &Arc<c00pipe::Shared>
                 prepare!(req, _host, _path, _addr, move |limit: u128| {
                     let mut b = req.method().as_str().as_bytes().to_vec();
                     b.push(b':');
+                    // what `read_to_bytes(limit)` REALLY returns on a connection is echoed uncut; only the in-memory
+                    // `Body::Bytes` of the layer-4 probe (neither protocol: it hands out everything whatever the limit)
+                    // is cut to the limit, so that the probe yields the specification "the first `limit` bytes"
+                    let in_memory = matches!(req.body(), application::Body::Bytes(_));
                     match req.body_mut().read_to_bytes(*limit as usize).await {
-                        // (the in-memory `Body::Bytes` of the layer-4 probe hands out everything whatever the limit: cut here)
-                        Ok(data) => b.extend_from_slice(&data[..data.len().min(*limit as usize)]),
+                        Ok(data) if in_memory => b.extend_from_slice(&data[..data.len().min(*limit as usize)]),
+                        Ok(data) => b.extend_from_slice(&data),
                         Err(_) => b.extend_from_slice(b"<body read error>"),
                     }
                     let mut resp = Response::new(Bytes::from(b));
@@ -203,6 +207,91 @@ fn customize(kv: &[(String, X)], host: &mut Host, _shared: &Arc<c00pipe::Shared>
                 }),
             );
         }
+    }
+    // echo2: (L path a b) — calls `read_to_bytes(a)` and then `read_to_bytes(b)`; answers "<METHOD>:" ++ first ++ "|" ++ second
+    if let Some(hs) = kv_get(kv, "echo2").and_then(X::as_l) {
+        for h in hs {
+            let Some([path, a, b]) = h.as_l() else { continue };
+            let (Some(path), Some(a), Some(b)) = (path.as_b(), a.as_n(), b.as_n()) else { continue };
+            host.extensions.add_prepare_single(
+                c00pipe::leak(path),
+                prepare!(req, _host, _path, _addr, move |a: u128, b: u128| {
+                    let mut out = req.method().as_str().as_bytes().to_vec();
+                    out.push(b':');
+                    let in_memory = matches!(req.body(), application::Body::Bytes(_));
+                    for (i, l) in [*a as usize, *b as usize].into_iter().enumerate() {
+                        if i == 1 {
+                            out.push(b'|');
+                        }
+                        match req.body_mut().read_to_bytes(l).await {
+                            Ok(data) if in_memory => out.extend_from_slice(&data[..data.len().min(l)]),
+                            Ok(data) => out.extend_from_slice(&data),
+                            Err(_) => out.extend_from_slice(b"<body read error>"),
+                        }
+                    }
+                    let mut resp = Response::new(Bytes::from(out));
+                    resp.headers_mut().insert("content-type", HeaderValue::from_static("text/plain"));
+                    FatResponse::new(resp, comprash::ServerCachePreference::None).with_compress(comprash::CompressPreference::None)
+                }),
+            );
+        }
+    }
+    // stream: (L path body (L chunk ...) (L [len]) (L (L name value) ...) status delay_ms) — a response whose `Response` body is
+    // `body` and whose `ResponsePipeFuture` then writes the chunks (sleeping `delay_ms` before each);
+    // `len` given: `with_future_and_len(len)`, else `with_future` (kvarn is told no length)
+    if let Some(hs) = kv_get(kv, "stream").and_then(X::as_l) {
+        for h in hs {
+            let Some([path, body, chunks, len, headers, status, delay]) = h.as_l() else { continue };
+            let (Some(path), Some(body), Some(chunks), Some(len), Some(headers), Some(status), Some(delay)) =
+                (path.as_b(), body.as_b(), chunks.as_l(), len.as_l(), headers.as_l(), status.as_n(), delay.as_n())
+            else {
+                continue;
+            };
+            let chunks: Vec<Bytes> = chunks.iter().filter_map(|c| c.as_b().map(Bytes::copy_from_slice)).collect();
+            let len = len.first().and_then(X::as_n).map(|n| n as u64);
+            let headers: Vec<(Vec<u8>, Vec<u8>)> =
+                headers.iter().filter_map(|h| h.as_l().and_then(|p| Some((p.first()?.as_b()?.to_vec(), p.get(1)?.as_b()?.to_vec())))).collect();
+            let spec = Arc::new((Bytes::copy_from_slice(body), chunks, len, headers, status as u16, delay as u64));
+            host.extensions.add_prepare_single(
+                c00pipe::leak(path),
+                prepare!(_req, _host, _path, _addr, move |spec: Arc<(Bytes, Vec<Bytes>, Option<u64>, Vec<(Vec<u8>, Vec<u8>)>, u16, u64)>| {
+                    let (body, chunks, len, headers, status, delay) = (&spec.0, spec.1.clone(), spec.2, &spec.3, spec.4, spec.5);
+                    let fut = response_pipe_fut!(pipe, _host, move |chunks: Vec<Bytes>, delay: u64| {
+                        for chunk in chunks.iter() {
+                            if *delay > 0 {
+                                tokio::time::sleep(Duration::from_millis(*delay)).await;
+                            }
+                            if pipe.send(chunk.clone()).await.is_err() {
+                                break;
+                            }
+                        }
+                    });
+                    let mut b = Response::builder().status(status);
+                    for (k, v) in headers {
+                        b = b.header(&k[..], &v[..]);
+                    }
+                    let resp = b.body(body.clone()).unwrap();
+                    let fat = FatResponse::new(resp, comprash::ServerCachePreference::None).with_compress(comprash::CompressPreference::None);
+                    match len {
+                        Some(len) => fat.with_future_and_len(fut, len),
+                        None => fat.with_future(fut),
+                    }
+                }),
+            );
+        }
+    }
+    // sfiles: prefix — `kvarn::extensions::stream_body()` answers every path that starts with it (files of the fixture directory)
+    if let Some(prefix) = kv_get(kv, "sfiles").and_then(X::as_b) {
+        let prefix: &'static str = c00pipe::leak(prefix);
+        host.extensions.add_prepare_fn(
+            Box::new(move |req, _host| req.uri().path().starts_with(prefix)),
+            kvarn::extensions::stream_body(),
+            extensions::Id::new(16, "c20 stream_body"),
+        );
+    }
+    // limit: max — the host's request limiter counts every request and lets `max` of them pass (429 up to 3 * max, then drop)
+    if let Some(max) = kv_get(kv, "limit").and_then(X::as_n) {
+        host.limiter = kvarn::limiting::Manager::new(max as usize, 1, 100_000.0);
     }
 }
 
@@ -298,6 +387,48 @@ fn x_wire(w: &Wire) -> X {
 }
 fn fail(idx: usize, what: String) -> X {
     X::L(vec![X::N(93), X::n(idx), X::b(what)])
+}
+/// Is this failure of an exchange trouble of the harness / the machine (nothing can be concluded: a time-out under load, a
+/// connection that could not be opened), as opposed to something the server did to the connection (a garbled or missing
+/// answer, a reset, stray bytes)?
+fn is_trouble(what: &str) -> bool {
+    // (a TLS / h2 handshake that FAILS - rather than times out -, an ALPN result other than the one asked for, a closed connection,
+    // a reset stream, a garbled answer are things the server did)
+    ["timeout:", "bind:", "connect:", "connect to port", "accept:", "addr:", "join:", "could not be started", "is not stable"]
+        .iter()
+        .any(|p| what.contains(p))
+}
+/// Runs a case up to three times.  A failure `(L (N 93) idx what)` that is not harness trouble and that repeats — same request
+/// index, same message — on all three attempts (fresh hosts, fresh connections each time) is what the server does to this
+/// input: the outcome `(L (N 94) idx what)`, which is compared like any other (never retried, never skipped).  Anything
+/// that does not repeat stays `(L (N 93) ..)` = "could not be executed" (the driver runs it again and counts it).
+fn persistent(mut attempt: impl FnMut() -> X) -> X {
+    let mut seen: Option<(u128, Vec<u8>)> = None;
+    let mut last = X::bad();
+    for round in 0..3 {
+        let out = attempt();
+        let Some([tag, idx, what]) = out.as_l() else { return out };
+        let (Some(93), Some(idx), Some(what)) = (tag.as_n(), idx.as_n(), what.as_b()) else { return out };
+        if is_trouble(&String::from_utf8_lossy(what)) {
+            return out;
+        }
+        let key = (idx, what.to_vec());
+        match &seen {
+            Some(k) if *k != key => return out,
+            _ => seen = Some(key),
+        }
+        last = out;
+        if round < 2 {
+            std::thread::sleep(Duration::from_millis(40));
+        }
+    }
+    match last {
+        X::L(mut v) if v.len() == 3 => {
+            v[0] = X::N(94);
+            X::L(v)
+        }
+        other => other,
+    }
 }
 
 // -------------------------------------------------------------------------------------------
@@ -420,7 +551,15 @@ impl H1 {
         }
         self.s.write_all(&out).await.map_err(|e| format!("write: {e}"))?;
         self.s.flush().await.map_err(|e| format!("flush: {e}"))?;
-
+        let w = self.read_response(r.method == b"HEAD").await?;
+        if body_after {
+            self.s.write_all(&r.body).await.map_err(|e| format!("write (body after the response): {e}"))?;
+            self.s.flush().await.map_err(|e| format!("flush: {e}"))?;
+        }
+        Ok(w)
+    }
+    /// reads one response with strict framing: status line, header lines, exactly `content-length` body bytes (none for HEAD)
+    async fn read_response(&mut self, head: bool) -> Result<Wire, String> {
         let mut buf = std::mem::take(&mut self.pending);
         let head_end = loop {
             if let Some(p) = buf.windows(4).position(|w| w == b"\r\n\r\n") {
@@ -456,21 +595,17 @@ impl H1 {
                 }
                 clen = n;
             }
-            if name == b"transfer-encoding" {
-                return Err("unexpected transfer-encoding".into());
+            if name == b"transfer-encoding" && v.to_ascii_lowercase().windows(7).any(|w| w == b"chunked") {
+                return Err("unexpected transfer-encoding: chunked".into());
             }
             headers.push((name, v.to_vec()));
         }
-        let want = if r.method == b"HEAD" { 0 } else { clen.ok_or("no content-length")? };
+        let want = if head { 0 } else { clen.ok_or("no content-length")? };
         while buf.len() < head_end + want {
             self.fill(&mut buf, "body shorter than content-length").await?;
         }
         let body = buf[head_end..head_end + want].to_vec();
         self.pending = buf[head_end + want..].to_vec();
-        if body_after {
-            self.s.write_all(&r.body).await.map_err(|e| format!("write (body after the response): {e}"))?;
-            self.s.flush().await.map_err(|e| format!("flush: {e}"))?;
-        }
         Ok(Wire::Resp { version, status, headers: canon_headers(headers), body })
     }
     /// the framing of everything before held: a sentinel GET is answered with the sentinel, nothing is left over
@@ -478,6 +613,8 @@ impl H1 {
         let r = Req { method: b"GET".to_vec(), target: b"/s".to_vec(), headers: vec![], body: vec![] };
         match self.exchange(&r).await? {
             Wire::Resp { status: 200, body, .. } if body == SENTINEL && self.pending.is_empty() => Ok(()),
+            // (a host whose request limiter is exhausted answers the sentinel like everything else: the framing held)
+            Wire::Resp { status: 429, .. } if self.pending.is_empty() => Ok(()),
             w => Err(format!("sentinel answered {w:?}, {} stray bytes", self.pending.len())),
         }
     }
@@ -501,7 +638,7 @@ impl H2 {
         Ok(H2 { send })
     }
     /// Starts the exchange (the request is on the connection when this returns); the returned future reads the reply.
-    async fn start(&mut self, r: &Req) -> Result<impl std::future::Future<Output = Result<Wire, String>>, String> {
+    async fn start(&mut self, r: &Req) -> Result<(impl std::future::Future<Output = Result<Wire, String>>, h2::SendStream<Bytes>), String> {
         let mut uri = b"https://localhost:8443".to_vec();
         uri.extend_from_slice(&r.target);
         let mut b = Request::builder().method(Method::from_bytes(&r.method).map_err(|e| e.to_string())?).uri(Uri::try_from(&uri[..]).map_err(|e| e.to_string())?);
@@ -516,7 +653,7 @@ impl H2 {
             // a server may answer (and close the stream) without reading the body: the answer still counts
             let _ = stream.send_data(Bytes::copy_from_slice(&r.body), true);
         }
-        Ok(async move {
+        Ok((async move {
             let resp = match tokio::time::timeout(read_timeout(), resp).await {
                 Err(_) => return Err(timed_out("h2 response head")),
                 Ok(Err(e)) if e.is_reset() && e.is_remote() => return Ok(Wire::Refused),
@@ -538,15 +675,17 @@ impl H2 {
             }
             let headers = parts.headers.iter().map(|(n, v)| (n.as_str().as_bytes().to_vec(), v.as_bytes().to_vec())).collect();
             Ok(Wire::Resp { version: 20, status: parts.status.as_u16(), headers: canon_headers(headers), body: data })
-        })
+        }, stream))
     }
     async fn exchange(&mut self, r: &Req) -> Result<Wire, String> {
-        self.start(r).await?.await
+        let (reply, _stream) = self.start(r).await?;
+        reply.await
     }
     async fn sentinel(&mut self) -> Result<(), String> {
         let r = Req { method: b"GET".to_vec(), target: b"/s".to_vec(), headers: vec![], body: vec![] };
         match self.exchange(&r).await? {
             Wire::Resp { status: 200, body, .. } if body == SENTINEL => Ok(()),
+            Wire::Resp { status: 429, .. } => Ok(()),
             w => Err(format!("sentinel answered {w:?}")),
         }
     }
@@ -569,6 +708,29 @@ fn x_response(resp: &Response<Bytes>, sd: u128) -> X {
     };
     let headers = canon_headers(resp.headers().iter().map(|(n, v)| (n.as_str().as_bytes().to_vec(), v.as_bytes().to_vec())).collect());
     X::L(vec![X::n(version), X::n(resp.status().as_u16()), x_headers(&headers), X::b(resp.body()), X::N(sd)])
+}
+
+/// what a `ResponsePipeFuture` writes, observed through a `ResponseBodyPipe::Http1` over a plain loopback pair
+async fn run_future(mut fut: ResponsePipeFuture, host: &Host) -> Option<Vec<u8>> {
+    let listener = tokio::net::TcpListener::bind("127.0.0.1:0").await.ok()?;
+    let addr = listener.local_addr().ok()?;
+    let mut client = tokio::net::TcpStream::connect(addr).await.ok()?;
+    let (server_end, _) = listener.accept().await.ok()?;
+    let enc = kvarn::encryption::Encryption::new_tcp(server_end, None).await.ok()?;
+    let pipe = Arc::new(Mutex::new(enc));
+    let reader = tokio::spawn(async move {
+        let mut v = Vec::new();
+        let _ = tokio::time::timeout(T, client.read_to_end(&mut v)).await;
+        v
+    });
+    {
+        let mut body_pipe = application::ResponseBodyPipe::Http1(Arc::clone(&pipe));
+        fut.call(&mut body_pipe, host).await;
+        let _ = body_pipe.close().await;
+    }
+    let _ = pipe.lock().await.shutdown().await;
+    drop(pipe);
+    reader.await.ok()
 }
 
 /// layer 4 observed in process
@@ -598,21 +760,27 @@ fn l4(x: &X) -> X {
             let e416 = kvarn::error::default(StatusCode::RANGE_NOT_SATISFIABLE, Some(host), Some(b"Range start after end of body")).await;
             (reply, e416)
         });
-        if reply.future.is_some() {
-            return X::L(vec![X::N(96)]);
-        }
         let sd = match &reply.sanitize_data {
             Ok(_) => 0,
             Err(utils::parse::SanitizeError::UnsafePath) => 1,
             Err(utils::parse::SanitizeError::RangeNotSatisfiable) => 2,
         };
-        out.push(x_response(&reply.response, sd));
+        let mut xr = x_response(&reply.response, sd);
+        // a streaming response: what its `ResponsePipeFuture` writes is observed here, in process, through a plain pipe
+        // (no `SendKind::send`, no protocol arm): (L bytes (L [len]))
+        if let Some((fut, len)) = reply.future {
+            let Some(written) = rt().block_on(run_future(fut, host)) else { return X::L(vec![X::N(96), X::b("the stream future could not be observed")]) };
+            if let X::L(v) = &mut xr {
+                v.push(X::L(vec![X::b(&written), X::L(len.map(|l| X::n(l)).into_iter().collect())]));
+            }
+        }
+        out.push(xr);
         err416.get_or_insert_with(|| x_response(&e416, 0));
     }
     if let Some(b) = built.take() {
         cleanup(&b);
     }
-    X::L(vec![err416.unwrap_or(X::L(vec![])), X::L(out)])
+    X::L(vec![err416.unwrap_or(X::L(vec![])), X::L(out), x_response(&kvarn::limiting::get_too_many_requests(), 0)])
 }
 
 struct Case {
@@ -652,6 +820,33 @@ async fn history_h2(desc: impl Into<Target>, reqs: &[Req]) -> Result<Vec<Wire>, 
 
 /// `flags`: only report whether every request of the history was answered on each protocol
 fn pair(x: &X, flags: bool) -> X {
+    if flags {
+        // "not every request was answered" is a verdict only if three runs (fresh hosts, fresh connections) agree on it
+        let mut first: Option<String> = None;
+        for round in 0..3 {
+            let out = pair_once(x, flags);
+            let txt = {
+                let mut t = String::new();
+                out.write(&mut t);
+                t
+            };
+            if txt == "(L (N 1) (N 1))" || txt.starts_with("(L (N 93)") || txt.starts_with("(L (N 9") {
+                return out;
+            }
+            match &first {
+                Some(f) if *f != txt => return fail(0, "open: the outcome of this history is not stable".into()),
+                _ => first = Some(txt),
+            }
+            if round == 2 {
+                return out;
+            }
+            std::thread::sleep(Duration::from_millis(40));
+        }
+        return X::bad();
+    }
+    persistent(|| pair_once(x, flags))
+}
+fn pair_once(x: &X, flags: bool) -> X {
     let Some(case) = parse_case(x, 7) else { return X::bad() };
     let Some(secure1) = x.as_l().and_then(|l| l[6].as_bool()) else { return X::bad() };
     if !case.reqs.iter().all(expressible) {
@@ -666,6 +861,14 @@ fn pair(x: &X, flags: bool) -> X {
             let w2 = history_h2(db, &reqs).await;
             // answered = every request got a response head and body, and the connection's framing was intact afterwards
             let all = |w: &Result<Vec<Wire>, (usize, String)>| matches!(w, Ok(v) if v.iter().all(|w| matches!(w, Wire::Resp { .. })));
+            // (a time-out or a connection that could not be opened says nothing about the server)
+            for w in [&w1, &w2] {
+                if let Err((i, e)) = w {
+                    if is_trouble(e) {
+                        return fail(*i, e.clone());
+                    }
+                }
+            }
             return X::L(vec![X::bool(all(&w1)), X::bool(all(&w2))]);
         }
         let w1 = match w1 {
@@ -686,17 +889,57 @@ fn pair(x: &X, flags: bool) -> X {
 // the same through complete servers (`RunConfig::execute`: listener, accept loop, ALPN, connection tasks)
 // -------------------------------------------------------------------------------------------
 static PORT_COUNTER: std::sync::atomic::AtomicU32 = std::sync::atomic::AtomicU32::new(0);
-/// Ports below the ephemeral range, spread by pid (kvarn sets SO_REUSEPORT: a taken port would not fail to bind,
-/// so a port is only used after a connection attempt to it was refused).
+/// A loopback port for a complete server.  kvarn sets SO_REUSEPORT, so binding a port another server listens on does not
+/// fail — the two would share the connections.  A port is therefore CLAIMED first: a lock file created with O_EXCL in a
+/// directory all harness processes of this machine share (it holds the owner's pid; the claim of a process that no longer
+/// exists is taken over), and used only if, in addition, a connection attempt to it is refused (nobody outside this scheme
+/// listens there).  The claim is released when the server has been shut down.
+struct PortClaim {
+    port: u16,
+    path: std::path::PathBuf,
+}
+impl Drop for PortClaim {
+    fn drop(&mut self) {
+        let _ = std::fs::remove_file(&self.path);
+    }
+}
+fn claim(port: u16) -> Option<PortClaim> {
+    use std::io::Write;
+    let dir = std::env::temp_dir().join("kv-verif-ports");
+    let _ = std::fs::create_dir_all(&dir);
+    let path = dir.join(format!("{port}.lock"));
+    for _ in 0..2 {
+        match std::fs::OpenOptions::new().write(true).create_new(true).open(&path) {
+            Ok(mut f) => {
+                let _ = write!(f, "{}", std::process::id());
+                return Some(PortClaim { port, path });
+            }
+            Err(_) => {
+                // a stale claim? (owner gone, or unreadable and older than 10 minutes)
+                let owner = std::fs::read_to_string(&path).ok().and_then(|s| s.trim().parse::<u32>().ok());
+                let stale = match owner {
+                    Some(pid) => pid != std::process::id() && !std::path::Path::new(&format!("/proc/{pid}")).exists(),
+                    None => std::fs::metadata(&path).and_then(|m| m.modified()).ok().and_then(|t| t.elapsed().ok()).map_or(false, |d| d > Duration::from_secs(600)),
+                };
+                if !stale {
+                    return None;
+                }
+                let _ = std::fs::remove_file(&path);
+            }
+        }
+    }
+    None
+}
 fn next_port() -> u16 {
     let n = PORT_COUNTER.fetch_add(1, std::sync::atomic::Ordering::Relaxed);
-    (10_000 + ((std::process::id() + 97) % 220) * 100 + 50 + n % 50) as u16
+    // 10050 .. 31999, spread by pid; below the ephemeral range (32768..) the kernel hands out to clients
+    (10_050 + (std::process::id().wrapping_mul(131).wrapping_add(n.wrapping_mul(7))) % 21_950) as u16
 }
-async fn free_port() -> Option<u16> {
-    for _ in 0..60 {
-        let port = next_port();
-        match tokio::time::timeout(Duration::from_secs(2), tokio::net::TcpStream::connect(("127.0.0.1", port))).await {
-            Ok(Err(e)) if e.kind() == std::io::ErrorKind::ConnectionRefused => return Some(port),
+async fn free_port() -> Option<PortClaim> {
+    for _ in 0..80 {
+        let Some(c) = claim(next_port()) else { continue };
+        match tokio::time::timeout(Duration::from_secs(2), tokio::net::TcpStream::connect(("127.0.0.1", c.port))).await {
+            Ok(Err(e)) if e.kind() == std::io::ErrorKind::ConnectionRefused => return Some(c),
             _ => {}
         }
     }
@@ -717,7 +960,8 @@ fn canon_port(w: &mut Wire, port: u16) {
 /// `Err(None)`: the harness could not run the case (ports, connect) — never a verdict
 async fn server_once(cfg: &X, secure1: bool, reqs: &[Req]) -> Result<X, Option<(usize, String)>> {
     let (Some(ba), Some(bb)) = (build(cfg), build(cfg)) else { return Ok(X::bad()) };
-    let (Some(pa), Some(pb)) = (free_port().await, free_port().await) else { return Err(None) };
+    let (Some(claim_a), Some(claim_b)) = (free_port().await, free_port().await) else { return Err(None) };
+    let (pa, pb) = (claim_a.port, claim_b.port);
     let da = if secure1 { PortDescriptor::new(pa, ba.hosts.clone()) } else { PortDescriptor::unsecure(pa, ba.hosts.clone()) };
     let sa = RunConfig::new().bind(da.ipv4_only()).disable_ctl().execute().await;
     let sb = RunConfig::new().bind(PortDescriptor::new(pb, bb.hosts.clone()).ipv4_only()).disable_ctl().execute().await;
@@ -738,10 +982,14 @@ async fn server_once(cfg: &X, secure1: bool, reqs: &[Req]) -> Result<X, Option<(
     .await;
     cleanup(&ba);
     cleanup(&bb);
+    drop((claim_a, claim_b));
     res
 }
 
 fn server(x: &X) -> X {
+    persistent(|| server_once_x(x))
+}
+fn server_once_x(x: &X) -> X {
     let Some(case) = parse_case(x, 7) else { return X::bad() };
     let Some(secure1) = x.as_l().and_then(|l| l[6].as_bool()) else { return X::bad() };
     if !case.reqs.iter().all(expressible) {
@@ -769,10 +1017,18 @@ fn sorted(mut v: Vec<(u128, X)>) -> X {
     X::L(v.into_iter().map(|(s, w)| X::L(vec![X::N(s), w])).collect())
 }
 
-/// all requests at once: streams of one HTTP/2 connection (`h2 = true`) or one HTTP/1.1 connection each
-fn burst(x: &X, use_h2: bool) -> X {
+/// (L sid class cacheable [cancel_ms]) — a stream the client CANCELS `cancel_ms` after it has sent the request
+fn cancels(x: &X) -> Option<Vec<Option<u64>>> {
+    x.as_l()?.get(6)?.as_l()?.iter().map(|s| Some(s.as_l()?.get(3).and_then(X::as_l).and_then(|l| l.first()).and_then(X::as_n).map(|n| n as u64))).collect()
+}
+
+/// all requests at once: streams of `conns` HTTP/2 connections (stream i on connection i mod conns; `use_h2`) or one
+/// HTTP/1.1 connection each.  Streams marked as cancelled are reset by the client (RST_STREAM(CANCEL) / the HTTP/1.1
+/// connection is dropped) some ms after the request was sent; their answers are not part of the output — every OTHER
+/// stream must get its own answer, and the connections must answer a sentinel request afterwards.
+fn burst_once(x: &X, use_h2: bool, conns: usize) -> X {
     let Some(case) = parse_case(x, 8) else { return X::bad() };
-    let Some(sids) = sids(x) else { return X::bad() };
+    let (Some(sids), Some(cancels)) = (sids(x), cancels(x)) else { return X::bad() };
     if sids.len() != case.reqs.len() {
         return X::bad();
     }
@@ -783,28 +1039,45 @@ fn burst(x: &X, use_h2: bool) -> X {
     let desc = descriptor(&b, true);
     let reqs: Vec<Req> = case.reqs.iter().map(resolve).collect();
     let out = rt().block_on(async move {
-        let mut tasks = Vec::new();
         if use_h2 {
-            let mut h2 = match H2::open(desc).await {
-                Ok(c) => c,
-                Err(e) => return fail(0, format!("h2 open: {e}")),
-            };
+            let mut tasks = Vec::new();
+            let mut h2s = Vec::new();
+            for _ in 0..conns.max(1) {
+                match H2::open(desc.clone()).await {
+                    Ok(c) => h2s.push(c),
+                    Err(e) => return fail(0, format!("h2 open: {e}")),
+                }
+            }
+            let nc = h2s.len();
             for (i, r) in reqs.iter().enumerate() {
-                match h2.start(r).await {
-                    Ok(f) => tasks.push(tokio::spawn(f)),
+                match h2s[i % nc].start(r).await {
+                    Ok((f, mut stream)) => match cancels[i] {
+                        None => tasks.push(Some(tokio::spawn(f))),
+                        Some(ms) => {
+                            tokio::spawn(async move {
+                                tokio::time::sleep(Duration::from_millis(ms)).await;
+                                stream.send_reset(h2::Reason::CANCEL);
+                                drop(f);
+                            });
+                            tasks.push(None);
+                        }
+                    },
                     Err(e) => return fail(i, format!("h2 start: {e}")),
                 }
             }
             let mut out = Vec::new();
             for (i, t) in tasks.into_iter().enumerate() {
+                let Some(t) = t else { continue };
                 match t.await {
                     Ok(Ok(w)) => out.push((sids[i], x_wire(&w))),
                     Ok(Err(e)) => return fail(i, format!("h2 stream: {e}")),
                     Err(e) => return fail(i, format!("join: {e}")),
                 }
             }
-            if let Err(e) = h2.sentinel().await {
-                return fail(reqs.len(), format!("h2 after the burst: {e}"));
+            for h2 in &mut h2s {
+                if let Err(e) = h2.sentinel().await {
+                    return fail(reqs.len(), format!("h2 after the burst: {e}"));
+                }
             }
             sorted(out)
         } else {
@@ -815,17 +1088,27 @@ fn burst(x: &X, use_h2: bool) -> X {
                     Err(e) => return fail(i, format!("h1 open: {e}")),
                 }
             }
-            for (mut c, r) in conns.into_iter().zip(reqs.iter().cloned()) {
-                tasks.push(tokio::spawn(async move {
+            let mut tasks = Vec::new();
+            for (i, (mut c, r)) in conns.into_iter().zip(reqs.iter().cloned()).enumerate() {
+                let cancel = cancels[i];
+                let t = tokio::spawn(async move {
+                    if let Some(ms) = cancel {
+                        // the client goes away: the answer, if any, is not observed
+                        let _ = tokio::time::timeout(Duration::from_millis(ms), c.exchange(&r)).await;
+                        return Ok::<Option<Wire>, String>(None);
+                    }
                     let w = c.exchange(&r).await?;
                     c.sentinel().await?;
-                    Ok::<Wire, String>(w)
-                }));
+                    Ok(Some(w))
+                });
+                tasks.push(Some(t));
             }
             let mut out = Vec::new();
             for (i, t) in tasks.into_iter().enumerate() {
+                let Some(t) = t else { continue };
                 match t.await {
-                    Ok(Ok(w)) => out.push((sids[i], x_wire(&w))),
+                    Ok(Ok(Some(w))) => out.push((sids[i], x_wire(&w))),
+                    Ok(Ok(None)) => {}
                     Ok(Err(e)) => return fail(i, format!("h1 connection: {e}")),
                     Err(e) => return fail(i, format!("join: {e}")),
                 }
@@ -836,11 +1119,17 @@ fn burst(x: &X, use_h2: bool) -> X {
     cleanup(&b);
     out
 }
+fn burst(x: &X, use_h2: bool, conns: usize) -> X {
+    persistent(|| burst_once(x, use_h2, conns))
+}
 
 /// every request alone: its own fresh host, its own connection
 fn alone(x: &X, use_h2: bool) -> X {
+    persistent(|| alone_once(x, use_h2))
+}
+fn alone_once(x: &X, use_h2: bool) -> X {
     let Some(case) = parse_case(x, 8) else { return X::bad() };
-    let Some(sids) = sids(x) else { return X::bad() };
+    let (Some(sids), Some(cancels)) = (sids(x), cancels(x)) else { return X::bad() };
     if sids.len() != case.reqs.len() {
         return X::bad();
     }
@@ -849,6 +1138,9 @@ fn alone(x: &X, use_h2: bool) -> X {
     }
     let mut out = Vec::new();
     for (i, r) in case.reqs.iter().enumerate() {
+        if cancels[i].is_some() {
+            continue;
+        }
         let Some(b) = build(&case.cfg) else { return X::bad() };
         let desc = descriptor(&b, true);
         let mut r = resolve(r);
@@ -876,14 +1168,213 @@ fn alone(x: &X, use_h2: bool) -> X {
     sorted(out)
 }
 
+// -------------------------------------------------------------------------------------------
+// which bytes `Body::read_to_bytes` hands a handler, per protocol
+// -------------------------------------------------------------------------------------------
+/// the handler of "proto.body": calls `read_to_bytes(l)` for every `l` of the request header `x-limits` (comma separated) and
+/// answers every result as "<decimal length>:<bytes>"
+fn body_host() -> Option<c00pipe::Built> {
+    let cfg = X::L(vec![X::L(vec![X::b("cache"), X::bool(false)])]);
+    let custom = |kv: &[(String, X)], host: &mut Host, shared: &Arc<c00pipe::Shared>| {
+        customize(kv, host, shared);
+        host.extensions.add_prepare_single(
+            "/rb",
+            prepare!(req, _host, _path, _addr, {
+                let limits: Vec<usize> = req
+                    .headers()
+                    .get("x-limits")
+                    .and_then(|v| v.to_str().ok())
+                    .map(|s| s.split(',').filter_map(|l| l.trim().parse().ok()).collect())
+                    .unwrap_or_default();
+                let mut out = Vec::new();
+                for l in limits {
+                    match req.body_mut().read_to_bytes(l).await {
+                        Ok(data) => {
+                            out.extend_from_slice(data.len().to_string().as_bytes());
+                            out.push(b':');
+                            out.extend_from_slice(&data);
+                        }
+                        Err(_) => out.extend_from_slice(b"E:"),
+                    }
+                }
+                FatResponse::new(Response::new(Bytes::from(out)), comprash::ServerCachePreference::None)
+                    .with_compress(comprash::CompressPreference::None)
+            }),
+        );
+    };
+    c00pipe::build_host(&cfg, Some(&custom))
+}
+fn parse_reads(mut b: &[u8], n: usize) -> Option<X> {
+    let mut out = Vec::new();
+    for _ in 0..n {
+        let colon = b.iter().position(|&c| c == b':')?;
+        let len: usize = std::str::from_utf8(&b[..colon]).ok()?.parse().ok()?;
+        let rest = &b[colon + 1..];
+        if rest.len() < len {
+            return None;
+        }
+        out.push(X::b(&rest[..len]));
+        b = &rest[len..];
+    }
+    if b.is_empty() {
+        Some(X::L(out))
+    } else {
+        None
+    }
+}
+/// (L body (L frame_len ...) early (L limit ...)) -> (L (L read ...) (L read ...)): HTTP/1.1, HTTP/2
+fn body_once(x: &X) -> X {
+    let Some([body, frames, early, limits]) = x.as_l() else { return X::bad() };
+    let (Some(body), Some(frames), Some(early), Some(limits)) = (body.as_b(), frames.as_l(), early.as_n(), limits.as_l()) else { return X::bad() };
+    let frames: Vec<usize> = frames.iter().filter_map(|f| f.as_n().map(|n| n as usize)).collect();
+    let limits: Vec<u128> = limits.iter().filter_map(X::as_n).collect();
+    if limits.is_empty() || frames.iter().any(|&f| f > 16_384) {
+        return X::L(vec![X::N(96)]);
+    }
+    let lim_txt = limits.iter().map(|l| l.to_string()).collect::<Vec<_>>().join(",");
+    let (Some(ba), Some(bb)) = (body_host(), body_host()) else { return X::bad() };
+    let (da, db) = (descriptor(&ba, true), descriptor(&bb, true));
+    let body = body.to_vec();
+    let n = limits.len();
+    let early = (early as usize).min(body.len());
+    rt().block_on(async move {
+        // HTTP/1.1: `early` bytes of the body in the same write as the head, the rest 30 ms later
+        let r1 = async {
+            let mut h1 = H1::open(da, true).await.map_err(|e| format!("h1 open: {e}"))?;
+            let head = format!("POST /rb HTTP/1.1\r\nhost: localhost:8443\r\nx-limits: {lim_txt}\r\ncontent-length: {}\r\n\r\n", body.len());
+            let mut first = head.into_bytes();
+            first.extend_from_slice(&body[..early]);
+            h1.s.write_all(&first).await.map_err(|e| format!("write: {e}"))?;
+            h1.s.flush().await.map_err(|e| format!("flush: {e}"))?;
+            if early < body.len() {
+                tokio::time::sleep(Duration::from_millis(30)).await;
+                h1.s.write_all(&body[early..]).await.map_err(|e| format!("write: {e}"))?;
+                h1.s.flush().await.map_err(|e| format!("flush: {e}"))?;
+            }
+            // read the answer of the request just written (no second request is sent by `exchange`'s framing code)
+            let w = h1.read_response(false).await.map_err(|e| format!("h1: {e}"))?;
+            h1.sentinel().await.map_err(|e| format!("h1 framing: {e}"))?;
+            Ok::<Wire, String>(w)
+        }
+        .await;
+        let w1 = match r1 {
+            Ok(Wire::Resp { status: 200, body, .. }) => body,
+            Ok(w) => return fail(0, format!("h1 answered {w:?}")),
+            Err(e) => return fail(0, e),
+        };
+        // HTTP/2: one `send_data` per frame length (each at most the default maximal frame size), the rest in one more
+        let r2 = async {
+            let mut h2 = H2::open(db).await.map_err(|e| format!("h2 open: {e}"))?;
+            let req = Request::builder()
+                .method(Method::POST)
+                .uri("https://localhost:8443/rb")
+                .header("x-limits", lim_txt.as_str())
+                .header("content-length", body.len().to_string())
+                .body(())
+                .map_err(|e| e.to_string())?;
+            let send = h2.send.clone();
+            let mut send = tokio::time::timeout(T, send.ready()).await.map_err(|_| timed_out("h2 ready"))?.map_err(|e| format!("h2 ready: {e}"))?;
+            let (resp, mut stream) = send.send_request(req, body.is_empty()).map_err(|e| format!("h2 send_request: {e}"))?;
+            let mut pos = 0;
+            let mut pieces: Vec<&[u8]> = Vec::new();
+            for f in &frames {
+                let end = (pos + f).min(body.len());
+                pieces.push(&body[pos..end]);
+                pos = end;
+            }
+            if pos < body.len() {
+                pieces.push(&body[pos..]);
+            }
+            let np = pieces.len();
+            for (i, piece) in pieces.into_iter().enumerate() {
+                // (the handler may stop reading: a failing send is not an error of the exchange)
+                let _ = stream.send_data(Bytes::copy_from_slice(piece), i + 1 == np);
+            }
+            let resp = tokio::time::timeout(read_timeout(), resp).await.map_err(|_| timed_out("h2 response head"))?.map_err(|e| format!("h2 response: {e}"))?;
+            let (parts, mut rbody) = resp.into_parts();
+            let mut data = Vec::new();
+            loop {
+                match tokio::time::timeout(read_timeout(), rbody.data()).await {
+                    Err(_) => return Err(timed_out("h2 body")),
+                    Ok(None) => break,
+                    Ok(Some(Err(e))) => return Err(format!("h2 body: {e}")),
+                    Ok(Some(Ok(chunk))) => {
+                        let _ = rbody.flow_control().release_capacity(chunk.len());
+                        data.extend_from_slice(&chunk);
+                    }
+                }
+            }
+            if parts.status != StatusCode::OK {
+                return Err(format!("h2 answered {}", parts.status));
+            }
+            h2.sentinel().await.map_err(|e| format!("h2 framing: {e}"))?;
+            Ok::<Vec<u8>, String>(data)
+        }
+        .await;
+        let w2 = match r2 {
+            Ok(b) => b,
+            Err(e) => return fail(1, e),
+        };
+        match (parse_reads(&w1, n), parse_reads(&w2, n)) {
+            (Some(a), Some(b)) => X::L(vec![a, b]),
+            _ => fail(2, "unreadable echo".into()),
+        }
+    })
+}
+fn body(x: &X) -> X {
+    let out = persistent(|| body_once(x));
+    out
+}
+
+/// "proto.sbody": `extensions::stream_body()` on a file, in process: (L file (L [(L start end)])) -> (L) for 416 | (L (L bytes len))
+fn sbody(x: &X) -> X {
+    let Some([file, range]) = x.as_l() else { return X::bad() };
+    let (Some(file), Some(range)) = (file.as_b(), range.as_l()) else { return X::bad() };
+    let range = match range.first() {
+        None => None,
+        Some(r) => match r.as_l() {
+            Some([a, b]) => match (a.as_n(), b.as_n()) {
+                (Some(a), Some(b)) if a < b => Some((a, b)),
+                _ => return X::L(vec![X::N(96)]),
+            },
+            _ => return X::bad(),
+        },
+    };
+    let cfg = X::L(vec![
+        X::L(vec![X::b("cache"), X::bool(false)]),
+        X::L(vec![X::b("sfiles"), X::b("/sf/")]),
+        X::L(vec![X::b("files"), X::L(vec![X::L(vec![X::b("public/sf/f.bin"), X::b(file)])])]),
+    ]);
+    let Some(b) = build(&cfg) else { return X::bad() };
+    let Some(host) = b.hosts.get_host(&b.host_name) else { return X::bad() };
+    let hdrs: Vec<X> = range.iter().map(|(a, e)| X::L(vec![X::b("range"), X::b(format!("bytes={}-{}", a, e - 1))])).collect();
+    let Some(mut req) = c00pipe::make_request("localhost:8443", b"GET", b"/sf/f.bin", &hdrs, b"") else { return X::L(vec![X::N(96)]) };
+    let out = rt().block_on(async {
+        let reply = kvarn::handle_cache(&mut req, c00pipe::sockaddr(1), host).await;
+        match (reply.response.status().as_u16(), reply.future) {
+            (416, None) => X::L(vec![]),
+            (200, Some((fut, Some(len)))) => match run_future(fut, host).await {
+                Some(written) => X::L(vec![X::L(vec![X::b(&written), X::n(len)])]),
+                None => X::L(vec![X::N(96), X::b("the stream future could not be observed")]),
+            },
+            (st, _) => X::L(vec![X::N(95), X::n(st)]),
+        }
+    });
+    cleanup(&b);
+    out
+}
+
 pub fn dispatch(comp: &str, x: &X) -> Option<X> {
     Some(match comp {
         "proto.l4" => l4(x),
         "proto.pair" => pair(x, false),
         "proto.answered" => pair(x, true),
         "proto.server" => server(x),
-        "proto.burst" => burst(x, true),
-        "proto.burst1" => burst(x, false),
+        "proto.burst" => burst(x, true, 1),
+        "proto.burst2" => burst(x, true, 2),
+        "proto.burst1" => burst(x, false, 1),
+        "proto.body" => body(x),
+        "proto.sbody" => sbody(x),
         "proto.alone" => alone(x, true),
         "proto.alone1" => alone(x, false),
         _ => return None,
